@@ -23,8 +23,13 @@ fn build(ch: &mut Chooser) -> (Vec<u8>, String) {
     let mut cells = vec![biff8::BCell::Number { r: 0, c: 0, xf: 0, v: 1.5 }, biff8::BCell::Label { r: 1, c: 1, xf: 0, text: "layout".into(), wide: false }];
     if big_workbook { for r in 2..400u16 { cells.push(biff8::BCell::Number { r, c: 0, xf: 0, v: r as f64 }); } }
     let stream = biff8::workbook_stream(&biff8::BBook { sheets: vec![biff8::BSheet::new("S", cells)], ..Default::default() });
-    let mut e = vec![cfb::Entry::stream("Workbook", stream, None)];
-    e.extend(project_entries(&project(), true, 1));
+    // a dual-format file also carries a BIFF5 `Book` stream (here with other content): `Workbook` is the one to read,
+    // wherever the two entries sit in the directory
+    let mut e = vec![];
+    let book = ch.flag("also-a-Book-stream-listed-before-Workbook");
+    if book { e.push(cfb::Entry::stream("Book", biff8::workbook_stream(&biff8::BBook { sheets: vec![biff8::BSheet::new("S", vec![biff8::BCell::Number { r: 0, c: 0, xf: 0, v: 99.0 }])], ..Default::default() }), None)); }
+    e.push(cfb::Entry::stream("Workbook", stream, None));
+    e.extend(project_entries(&project(), true, if book { 2 } else { 1 }));
     let lay = crate::props::c13::choose_layout(ch);
     (cfb::write(&e, &lay), format!("big_workbook={big_workbook} {lay:?}"))
 }
